@@ -65,7 +65,8 @@ GEntry(m, src, en) ==
        ELSE IF m.cl THEN m                                       \* will be wiped by the pending connection loss
        ELSE IF en.acc THEN GSetLive(m, ks, en.ttl)
        ELSE GSetLive(GSetLive(m, {k \in ks : GLive(m, k) > 0}, en.ttl),       \* refresh: listener not consulted
-                     {k \in ks : GLive(m, k) = 0 /\ k \in m.exp}, Amb(en.ttl))
+                     \* (a second such entry in the same tick: still "not live, or live for ITS ttl")
+                     {k \in ks : (GLive(m, k) = 0 /\ k \in m.exp) \/ GLive(m, k) < 0}, Amb(en.ttl))
 \* reboot evidence of a message, applied before its entries
 GReboot(m, e) ==
   LET k   == <<e.src, e.mc>>
